@@ -88,6 +88,24 @@ theorem C45_close_returns_after_all (steps : List Step) (s : State) (hr : run in
   exact activeCount_zero s.clients h0
 
 
+/-- the WaitGroup counter never goes negative: whenever a `Done` happens (handler exit, or Accept failure) the counter
+    is positive — the "negative WaitGroup counter" panic is unreachable -/
+theorem no_negative_counter (steps : List Step) (s s' : State) (c : Nat) (hr : run init steps = some s)
+    (hd : step s (.done c) = some s' ∨ step s (.acceptFail c) = some s') : 0 < s.wg := by
+  have inv := InvWG_run init s steps InvWG_init hr
+  rw [inv.wgEq]
+  rcases hd with hd | hd <;> simp only [step] at hd
+  · split at hd <;> try (simp at hd; done)
+    rename_i cl hc
+    split at hd <;> try (simp at hd; done)
+    rename_i hpc
+    exact activeCount_pos s.clients c cl hc (by rw [hpc]; rfl)
+  · split at hd <;> try (simp at hd; done)
+    rename_i cl hc
+    split at hd <;> try (simp at hd; done)
+    rename_i hpc
+    exact activeCount_pos s.clients c cl hc (by rw [hpc]; rfl)
+
 /-- liveness half ("no leaked client handler"): once the watcher's context is cancelled, a state in which none of the
     program's own steps is enabled has no handler left; together with `internal_terminates` (Props/C44) such a state
     is reached after at most `mu s` steps -/
